@@ -309,7 +309,7 @@ func (t *tr) lenOf(env Env, x Term) (Term, bool) {
 		r = intLit(u.Len())
 	case *types.Map:
 		_, _, ln := t.mapHeaps(u)
-		r = sel(t.readIn(env, ln), x)
+		r = ite(eq(x, intLit(0)), intLit(0), sel(t.readIn(env, ln), x)) // len of a nil map is 0
 	case *types.Pointer:
 		if a, ok := u.Elem().Underlying().(*types.Array); ok {
 			r = intLit(a.Len())
